@@ -19,6 +19,8 @@ OBLIGATIONS.append(ob('C02.cmp.int.fractional', CMP + 'c02_cmp_int_fractional', 
 OBLIGATIONS.append(ob('C02.cmp.string', 'verif_frag::strarm::c12_arm_plain', 'String arm of conforms (whole block verbatim on a shim world): a text column against a literal without wildcard compares by text equality (`=`), `!=` is the complement (same harness as C12.arm.plain)', units=['strarm'], complete=False, bound='concrete witness texts'))
 OBLIGATIONS.append(ob('C02.cmp.string.pattern', 'verif_frag::strarm::c12_arm_glob', 'String arm of conforms: a text column against a wildcard literal compares by pattern (same harness as C12.arm.glob)', units=['strarm'], complete=False, bound='concrete witness texts'))
 OBLIGATIONS.append(ob('C02.literal.empty', 'verif_frag::tokenloop::c02_token_loop', 'Parser::parse, body of the token collection loop (verbatim): every token produced by the lexer is appended to the parser input - an empty quoted literal (`ext = \'\'`) is a value and is not dropped', units=['tokenloop'], complete=False, bound='5 token kinds'))
+OBLIGATIONS.append(dict(id='C02.lexer.quoted', engine='V', verus_fn='Lexer::next_lexem', verus_file='lexer', label='C02.lexer.quoted', complete=True, bound=None, units=[], harness='verus:Lexer::next_lexem', tier='quick',
+    desc='real Lexer::next_lexem, every input: a token that starts at a quote character (single, double or backtick) is returned as a text literal token (Lexem::String), never as a word / keyword / operator - whatever it spells and however it ends; a comma under the cursor is a Comma token'))
 CANARIES = [dict(harness='verif_frag::tokenloop::canary_tokenloop_must_fail', units=['tokenloop']), dict(harness='verif_frag::strarm::canary_strarm_must_fail', units=['strarm']), dict(harness=CMP + 'canary_cmp_must_fail', units=['cmp'])]
 ASSUMPTIONS = ['float arm: stated for non-NaN operands', 'date arm: start <= finish']
 NOT_COVERED = ['get_field_value: which attribute is compared', 'literal -> number coercion (Variant::to_int / to_float, parse_filesize as a whole)', 'string arm (regex)', 'type dispatch on field_value.get_type()']
